@@ -168,6 +168,52 @@ def lower_match_statements(tree):
     return count[0]
 
 
+# ------------------------------------------------------------------------------------------------ 0b. partialmethod
+def lower_partialmethods(tree):
+    """class-level `name = partialmethod(method, <constants>)` read as the method it defines: `def name(self, <remaining
+    parameters>)` with the body of `method`, the bound parameters replaced by the constants and what that makes constant
+    folded (f-strings, getattr / setattr with a known name). Returns the number of definitions lowered."""
+    from .astutil import fold_static
+    n = 0
+    for c in [x for x in ast.walk(tree) if isinstance(x, ast.ClassDef)]:
+        meths = {f.name: f for f in c.body if isinstance(f, ast.FunctionDef)}
+        new_body = []
+        for st in c.body:
+            v = st.value if isinstance(st, ast.Assign) and len(st.targets) == 1 and isinstance(st.targets[0], ast.Name) else None
+            if isinstance(v, ast.Call) and norm_name(v.func) in ("partialmethod", "functools.partialmethod") and v.args \
+                    and isinstance(v.args[0], ast.Name) and v.args[0].id in meths \
+                    and all(_const_literal(a) for a in v.args[1:]) and all(k.arg and _const_literal(k.value) for k in v.keywords):
+                h = meths[v.args[0].id]
+                ps = [a.arg for a in h.args.args]
+                if not ps or h.args.vararg or h.args.kwarg or _decorators(h):
+                    new_body.append(st)
+                    continue
+                bound = dict(zip(ps[1:], v.args[1:]))
+                bound.update({k.arg: k.value for k in v.keywords})
+                if not set(bound) <= set(ps[1:]):
+                    new_body.append(st)
+                    continue
+                f = clone(h)
+                f.name = st.targets[0].id
+                keep = [a for a in f.args.args if a.arg not in bound]
+                nd = len(f.args.defaults)
+                dflt = dict(zip([a.arg for a in f.args.args][len(f.args.args) - nd:], f.args.defaults)) if nd else {}
+                f.args.args = keep
+                f.args.defaults = [dflt[a.arg] for a in keep if a.arg in dflt]
+                f.body = [substitute_stmt(b, bound) for b in f.body]
+                fold_static(f)
+                for x in ast.walk(f):
+                    if isinstance(x, (ast.expr, ast.stmt)):
+                        x.lineno, x.col_offset = st.lineno, st.col_offset
+                        x.end_lineno, x.end_col_offset = getattr(st, "end_lineno", st.lineno), getattr(st, "end_col_offset", 0)
+                new_body.append(ast.copy_location(f, st))
+                n += 1
+            else:
+                new_body.append(st)
+        c.body = new_body
+    return n
+
+
 # ------------------------------------------------------------------------------------------------ 1. constants
 def substitute_constants(tree):
     """module-level `NAME = <literal>` bound exactly once, and class-level ones read as self.NAME / cls.NAME / Class.NAME"""
